@@ -146,6 +146,9 @@ func (h *hist) judgeAdd(ti *txInfo, pre, post *snap, got, want string) {
 	if got == "replace-underpriced" {
 		r.Count("replacements_rejected", 1)
 	}
+	if got == "ok" && post.Stored > datacap {
+		h.viol("datacap", fmt.Sprintf("after the accepted Add of %s: stored %d > Datacap %d", h.txName(ti), post.Stored, datacap))
+	}
 	if got == "ok" && want == "ok" && pre != nil {
 		st := h.state(ti.from)
 		if off := int(ti.tx.Nonce() - st.Nonce); off < len(pre.Index[ti.from]) {
@@ -162,8 +165,10 @@ func (h *hist) judgeAdd(ti *txInfo, pre, post *snap, got, want string) {
 // ---------------------------------------------------------------- invariants (pure)
 
 type finding struct {
-	FP  string `json:"fp"`
-	Msg string `json:"msg"`
+	FP   string         `json:"fp"`
+	Msg  string         `json:"msg"`
+	Addr common.Address `json:"-"` // account concerned (nonce-sequence findings)
+	Pos  int            `json:"-"` // position of the first offending transaction
 }
 
 func feeJumps(fee *big.Int) float64 {
@@ -200,7 +205,7 @@ func near(a, b, tol float64) bool { return math.Abs(a-b) <= tol }
 // chain state the pool was last given.
 func invariants(e *env, s *snap, st map[common.Address]acct, head *types.Header, name func(common.Address) string) []finding {
 	var out []finding
-	add := func(fp, format string, a ...any) { out = append(out, finding{fp, fmt.Sprintf(format, a...)}) }
+	add := func(fp, format string, a ...any) { out = append(out, finding{FP: fp, Msg: fmt.Sprintf(format, a...)}) }
 	idOwner := map[uint64]common.Hash{}
 	slotOf := map[uint64]uint32{}
 	for _, en := range s.Store {
@@ -223,6 +228,7 @@ func invariants(e *env, s *snap, st map[common.Address]acct, head *types.Header,
 		for i, m := range l {
 			if m.Nonce != as.Nonce+uint64(i) {
 				add("index:nonce-sequence", "%s: nonce %d at position %d, state nonce %d", name(a), m.Nonce, i, as.Nonce)
+				out[len(out)-1].Addr, out[len(out)-1].Pos = a, i
 				break
 			}
 		}
@@ -445,7 +451,8 @@ type opInfo struct {
 func (h *hist) check(op string, pre *snap) *snap {
 	r := h.r
 	level := 1
-	if op == "reopen" || op == "init" || h.opNo%8 == 0 {
+	if op == "reopen" || h.opNo == h.walkAt || h.forceWalk {
+		h.forceWalk = false
 		level = 2 // physical walk of both stores
 		r.Count("store_walks", 1)
 	}
@@ -456,9 +463,27 @@ func (h *hist) check(op string, pre *snap) *snap {
 		h.viol("head-mismatch", fmt.Sprintf("after %s the pool's head is not the chain head", op))
 	}
 	for _, f := range invariants(h.e, s, hd.state, hd.header, h.addrName) {
+		// KNOWN-FINDING class (narrow): after a Reset, recheck() decides "gapped" from the lowest
+		// pooled nonce before dropping the stale prefix; when a re-injected transaction of the
+		// account is stale (nonce < new state nonce) and the transaction at the state nonce is
+		// missing, the rest stays pooled although it dangles. Attributed only for a gap at the
+		// FRONT of the account's list, in a reorg, with such a stale re-injected transaction.
+		if f.FP == "index:nonce-sequence" && f.Pos == 0 && op == "reorg" && h.cur != nil {
+			for hash := range h.cur.reinjected {
+				if ti := h.byHash[hash]; ti != nil && ti.from == f.Addr && ti.tx.Nonce() < hd.state[f.Addr].Nonce {
+					f.FP = "index:dangling-after-reorg-with-stale-reinjected-prefix"
+					h.dead = true
+				}
+			}
+		}
 		h.viol(f.FP, fmt.Sprintf("after %s: %s", op, f.Msg))
+		if h.dead {
+			return s
+		}
 	}
-	if s.Stored > datacap {
+	// The Datacap is enforced on (successful) insertion - see judgeAdd - and at Init only (re-injection during a reorg may
+	// exceed it until the next insertion; the code documents it as a soft cap).
+	if s.Stored > datacap && (op == "reopen" || op == "init") {
 		h.viol("datacap", fmt.Sprintf("after %s: stored %d > Datacap %d", op, s.Stored, datacap))
 	}
 	for _, l := range s.Index {
@@ -468,8 +493,34 @@ func (h *hist) check(op string, pre *snap) *snap {
 			}
 		}
 	}
+	if h.verbose {
+		var sb strings.Builder
+		for i := 0; i < nAccounts; i++ {
+			a := h.e.addrs[i]
+			fmt.Fprintf(&sb, "A%d[", i)
+			for _, m := range s.Index[a] {
+				fmt.Fprintf(&sb, "%d:%x ", m.Nonce, m.Hash[:3])
+			}
+			fmt.Fprintf(&sb, "] g%v ", s.GappedNonces[a])
+		}
+		sb.WriteString(" limbo{")
+		for b, ids := range s.LimboGroups {
+			for _, hash := range ids {
+				fmt.Fprintf(&sb, "%d:%x ", b, hash[:3])
+			}
+		}
+		sb.WriteString("} shadow{")
+		for hash, b := range h.limbo {
+			fmt.Fprintf(&sb, "%d:%x ", b, hash[:3])
+		}
+		fmt.Fprintf(&sb, "} stored=%d", s.Stored)
+		h.logf("     pool after %s: %s", op, sb.String())
+	}
 	// shadow limbo
 	h.compareLimbo(op, s)
+	if h.dead {
+		return s
+	}
 	// explain index changes
 	if pre != nil && op != "reopen" {
 		h.explain(op, pre, s)
@@ -479,20 +530,52 @@ func (h *hist) check(op string, pre *snap) *snap {
 }
 
 func (h *hist) compareLimbo(op string, s *snap) {
-	for hash, b := range h.limbo {
-		id, ok := s.LimboIndex[hash]
-		if !ok {
-			h.viol("limbo:missing", fmt.Sprintf("after %s: %s was included in non-finalized block %d but is not in the limbo", op, h.hashName(hash), b))
-			continue
-		}
-		if s.LimboGroups[b][id] != hash {
-			h.viol("limbo:wrong-block", fmt.Sprintf("after %s: %s should be tracked under block %d", op, h.hashName(hash), b))
+	// actual view: hash -> block
+	actual := map[common.Hash]uint64{}
+	for b, ids := range s.LimboGroups {
+		for _, hash := range ids {
+			actual[hash] = b
 		}
 	}
-	for hash := range s.LimboIndex {
+	// KNOWN-FINDING class (narrow): a limboed transaction that a reorg dropped from one block and
+	// re-included in another keeps its old block number (BlobPool.reorg passes included-minus-
+	// discarded to limbo.update, which by construction never contains a re-included tx), so it
+	// is finalized too early or too late. Attributed only if the transaction was re-included at a
+	// different height while limboed AND the pool's limbo equals, for that transaction, what the
+	// stale block number predicts (h.limboCode). Everything else keeps the generic fingerprints.
+	known := func(hash common.Hash) bool {
+		if !h.reincluded[hash] {
+			return false
+		}
+		cb, cok := h.limboCode[hash]
+		ab, aok := actual[hash]
+		return cok == aok && cb == ab
+	}
+	report := func(fp, msg string, hash common.Hash) {
+		if known(hash) {
+			fp = "limbo:block-not-updated-on-reinclusion"
+			h.dead = true // cascade control
+		}
+		h.viol(fp, msg)
+	}
+	for hash, b := range h.limbo {
+		ab, ok := actual[hash]
+		if !ok {
+			report("limbo:missing", fmt.Sprintf("after %s: %s is included in non-finalized block %d but is not in the limbo", op, h.hashName(hash), b), hash)
+		} else if ab != b {
+			report("limbo:wrong-block", fmt.Sprintf("after %s: %s is tracked under block %d, it is included in block %d", op, h.hashName(hash), ab, b), hash)
+		}
+		if h.dead {
+			return
+		}
+	}
+	for hash, ab := range actual {
 		if _, ok := h.limbo[hash]; !ok {
 			fin := h.ch.finalBlk().header.Number.Uint64()
-			h.viol("limbo:stale", fmt.Sprintf("after %s: %s is in the limbo although it is finalized, reorged out or was never offloaded (final=%d)", op, h.hashName(hash), fin))
+			report("limbo:stale", fmt.Sprintf("after %s: %s is in the limbo (block %d) although it is finalized, reorged out or was never offloaded (final=%d)", op, h.hashName(hash), ab, fin), hash)
+			if h.dead {
+				return
+			}
 		}
 	}
 }
@@ -520,7 +603,7 @@ func (h *hist) shadowReset(pre *snap, discarded, included []*blk) {
 			info.transactors[from] = true
 		}
 	}
-	// re-included elsewhere: the limbo entry moves to the new block
+	// included in the new chain only: the limbo entry (if any) moves to the new block
 	for hash, b := range inclusions {
 		if _, was := inDisc[hash]; was {
 			continue
@@ -528,16 +611,24 @@ func (h *hist) shadowReset(pre *snap, discarded, included []*blk) {
 		if _, ok := h.limbo[hash]; ok {
 			h.limbo[hash] = b
 		}
+		if _, ok := h.limboCode[hash]; ok {
+			h.limboCode[hash] = b
+		}
 	}
 	// lost: pulled from the limbo and re-injected
 	reinj := map[common.Address][]uint64{}
 	for hash, tx := range inDisc {
 		if _, re := inclusions[hash]; re {
-			if _, ok := h.limbo[hash]; ok { // discarded and re-included: block number updated
+			if ob, ok := h.limbo[hash]; ok { // dropped and re-included: tracked under the new block
+				if ob != inclusions[hash] {
+					h.reincluded[hash] = true // h.limboCode keeps the old number (what the code does)
+					r.Count("limbo_reincluded_other_height", 1)
+				}
 				h.limbo[hash] = inclusions[hash]
 			}
 			continue
 		}
+		delete(h.limboCode, hash)
 		if _, ok := h.limbo[hash]; ok {
 			delete(h.limbo, hash)
 			info.reinjected[hash] = true
@@ -578,6 +669,7 @@ func (h *hist) shadowReset(pre *snap, discarded, included []*blk) {
 			if c.nonce < next {
 				if b, ok := inclusions[c.hash]; ok {
 					h.limbo[c.hash] = b
+					h.limboCode[c.hash] = b
 					h.fLimbo = true
 					r.Count("limbo_pushes", 1)
 				}
@@ -590,6 +682,11 @@ func (h *hist) shadowReset(pre *snap, discarded, included []*blk) {
 		if b <= fin {
 			delete(h.limbo, hash)
 			r.Count("limbo_finalized", 1)
+		}
+	}
+	for hash, b := range h.limboCode {
+		if b <= fin {
+			delete(h.limboCode, hash)
 		}
 	}
 }
@@ -660,8 +757,15 @@ func (h *hist) explain(op string, pre, post *snap) {
 			case "add":
 				_, gapped := pre.GappedSource[m.Hash]
 				ok = m.Hash == h.lastAdd || gapped
+				if gapped && m.Hash != h.lastAdd {
+					h.viaGapped[m.Hash] = true // promoted from the gapped buffer
+					r.Count("gapped_promotions", 1)
+				}
 			case "advance", "reorg":
 				ok = info != nil && info.reinjected[m.Hash]
+				if ok {
+					h.viaReinject[m.Hash] = true
+				}
 			}
 			if !ok {
 				h.viol("index:unexplained-addition:"+op, fmt.Sprintf("after %s: %s (%s) appeared in the pool without a reason", op, h.hashName(m.Hash), h.addrName(a)))
@@ -779,6 +883,43 @@ func (h *hist) verifyGet(op string, hash common.Hash) {
 // compareReopened: Close + New/Init on the same directory and head must reproduce the contents.
 func (h *hist) compareReopened(pre, post *snap) {
 	r := h.r
+	// KNOWN-FINDING class (narrow): a transaction promoted from the gapped buffer is not
+	// re-checked against the pool's minimum tip (addLocked -> validateTx only), so after a
+	// SetGasTip raise the pool can hold a tx below its own tip floor; Init's SetGasTip drops it
+	// (and its successors) on reopen. Attributed only if every missing tx is, or follows in its
+	// account, such a tx (tip < gas tip AND it entered the index via the gapped buffer).
+	now := map[common.Hash]bool{}
+	for _, l := range post.Index {
+		for _, m := range l {
+			now[m.Hash] = true
+		}
+	}
+	missing, attributed, reinj := 0, 0, false
+	for _, l := range pre.Index {
+		cut := false
+		for _, m := range l {
+			if m.ExecTipCap.Cmp(big.NewInt(h.gasTip)) < 0 && (h.viaGapped[m.Hash] || h.viaReinject[m.Hash]) {
+				cut = true
+				reinj = reinj || h.viaReinject[m.Hash]
+			}
+			if !now[m.Hash] {
+				missing++
+				if cut {
+					attributed++
+				}
+			}
+		}
+	}
+	if missing > 0 && missing == attributed && len(post.LookupTx) == len(pre.LookupTx)-missing {
+		fp, path := "reopen:below-gastip-tx-from-gapped-buffer-dropped", "promoted from the gapped buffer"
+		if reinj {
+			// same consequence, other entry path: re-injection after a reorg is "blind" too
+			fp, path = "reopen:below-gastip-tx-from-reinjection-dropped", "re-injected by a reorg"
+		}
+		h.viol(fp, fmt.Sprintf("%d pooled tx(s) vanish on Close+reopen: %s with a tip below the pool's gas tip %d, dropped by Init", missing, path, h.gasTip))
+		h.dead = true
+		return
+	}
 	for a, l := range pre.Index {
 		pl := post.Index[a]
 		if len(pl) != len(l) {
@@ -828,17 +969,29 @@ type reopenResult struct {
 	Pooled     int       `json:"pooled"`
 	Limboed    int       `json:"limboed"`
 	AckedGone  int       `json:"acked_missing"` // abrupt mode: acknowledged txs not present (recorded, see doc)
+	Notes      int       `json:"notes"`
 	AckTail    []string  `json:"ack_tail"`
 }
 
 // ackView is what the acknowledgement log says at a position.
+type ackInfo struct {
+	tip    int64
+	gapped int
+	acct   int
+	nonce  uint64
+	slot   uint64
+}
+
 type ackView struct {
+	info      map[common.Hash]ackInfo
 	head      headState
 	acked     map[common.Hash]bool   // ACKed and not GONE
 	ever      map[common.Hash]bool   // ever ACKed, or returned ok, or in flight in the last (incomplete) op
 	limbo     map[common.Hash]uint64 // limbo listing of the last complete op
 	everLimbo map[common.Hash]bool
-	closed    bool // CLOSE is the last line
+	submitted map[common.Hash]bool // ever passed to Add
+	inflight  bool                 // the log ends inside an operation (BEGIN without END)
+	closed    bool                 // CLOSE is the last line
 	tail      []string
 }
 
@@ -848,7 +1001,7 @@ func parseAck(path string, lines int) (*ackView, error) {
 		return nil, err
 	}
 	defer f.Close()
-	v := &ackView{acked: map[common.Hash]bool{}, ever: map[common.Hash]bool{}, limbo: map[common.Hash]uint64{}, everLimbo: map[common.Hash]bool{}}
+	v := &ackView{submitted: map[common.Hash]bool{}, info: map[common.Hash]ackInfo{}, acked: map[common.Hash]bool{}, ever: map[common.Hash]bool{}, limbo: map[common.Hash]uint64{}, everLimbo: map[common.Hash]bool{}}
 	sc := bufio.NewScanner(f)
 	sc.Buffer(make([]byte, 1<<20), 1<<24)
 	cur := map[common.Hash]uint64{}
@@ -875,9 +1028,24 @@ func parseAck(path string, lines int) (*ackView, error) {
 			}
 		case "BEGIN":
 			cur = map[common.Hash]uint64{}
+			v.inflight = true
 		case "ACK":
 			hash := common.HexToHash(fs[1])
 			v.acked[hash], v.ever[hash] = true, true
+			ai := ackInfo{}
+			for _, f := range fs[2:] {
+				fmt.Sscanf(f, "tip=%d", &ai.tip)
+				fmt.Sscanf(f, "gapped=%d", &ai.gapped)
+				fmt.Sscanf(f, "acct=%d", &ai.acct)
+				fmt.Sscanf(f, "nonce=%d", &ai.nonce)
+				fmt.Sscanf(f, "slot=%d", &ai.slot)
+			}
+			v.info[hash] = ai
+		case "SUBMIT":
+			v.submitted[common.HexToHash(fs[1])] = true
+			v.inflight = true
+		case "KILLED":
+			v.inflight = true
 		case "RET":
 			if len(fs) > 2 && strings.HasPrefix(fs[2], "ok") {
 				v.ever[common.HexToHash(fs[1])] = true
@@ -891,6 +1059,7 @@ func parseAck(path string, lines int) (*ackView, error) {
 			v.everLimbo[common.HexToHash(fs[1])] = true
 		case "END":
 			v.limbo = cur
+			v.inflight = false
 		case "CLOSE":
 			v.closed = true
 		}
@@ -913,7 +1082,7 @@ func parseAck(path string, lines int) (*ackView, error) {
 func reopenAndCheck(r *vrt.Run, dir, ackPath string, lines int, exact bool) reopenResult {
 	var res reopenResult
 	add := func(fp, format string, a ...any) {
-		res.Violations = append(res.Violations, finding{fp, fmt.Sprintf(format, a...)})
+		res.Violations = append(res.Violations, finding{FP: fp, Msg: fmt.Sprintf(format, a...)})
 	}
 	v, err := parseAck(ackPath, lines)
 	if err != nil {
@@ -945,6 +1114,12 @@ func reopenAndCheck(r *vrt.Run, dir, ackPath string, lines int, exact bool) reop
 	s := pool.VerifSnapshot(2)
 	name := func(a common.Address) string { return fmt.Sprintf("%x", a[:4]) }
 	for _, f := range invariants(e, s, ch.headBlk().state, ch.headBlk().header, name) {
+		if !exact && f.FP == "limbo:also-pooled" {
+			// after an abrupt stop a re-injected transaction is both in the queue store and (its
+			// limbo deletion never reached the disk) in the limbo store: not judged here
+			res.Notes++
+			continue
+		}
 		res.Violations = append(res.Violations, f)
 	}
 	if s.Stored > datacap {
@@ -955,8 +1130,11 @@ func reopenAndCheck(r *vrt.Run, dir, ackPath string, lines int, exact bool) reop
 		for _, m := range l {
 			present[m.Hash] = true
 			res.Pooled++
-			if !v.ever[m.Hash] {
+			if exact && !v.ever[m.Hash] {
 				add("never-acknowledged", "pooled tx %x was never acknowledged as added", m.Hash[:4])
+			}
+			if !v.ever[m.Hash] && !v.submitted[m.Hash] {
+				add("never-submitted", "pooled tx %x was never submitted to the pool", m.Hash[:4])
 			}
 			if tx := pool.Get(m.Hash); tx == nil || tx.Hash() != m.Hash || tx.BlobTxSidecar() == nil {
 				add("get-after-reopen", "Get(%x) does not return the transaction with its sidecar", m.Hash[:4])
@@ -970,8 +1148,29 @@ func reopenAndCheck(r *vrt.Run, dir, ackPath string, lines int, exact bool) reop
 		}
 	}
 	if exact {
+		// known-finding attribution, see compareReopened: missing txs that are (or follow, within
+		// their account) a gapped-buffer promotion with a tip below the gas tip
+		cutAt := map[int]uint64{}
+		viaReinj := false
+		for hash := range v.acked {
+			if ai := v.info[hash]; ai.gapped >= 1 && ai.tip < v.head.GasTip {
+				viaReinj = viaReinj || ai.gapped == 2
+				if n, ok := cutAt[ai.acct]; !ok || ai.nonce < n {
+					cutAt[ai.acct] = ai.nonce
+				}
+			}
+		}
 		for hash := range v.acked {
 			if !present[hash] {
+				ai := v.info[hash]
+				if n, ok := cutAt[ai.acct]; ok && ai.nonce >= n {
+					fp := "below-gastip-tx-from-gapped-buffer-dropped"
+					if viaReinj {
+						fp = "below-gastip-tx-from-reinjection-dropped"
+					}
+					add(fp, "acknowledged tx %x (tip %d, gas tip %d; entered the pool without a tip check, or sits behind such a tx) is dropped by Init", hash[:4], ai.tip, v.head.GasTip)
+					continue
+				}
 				add("acked-missing", "acknowledged tx %x is not pooled after a clean Close and reopen", hash[:4])
 			}
 		}
@@ -990,12 +1189,63 @@ func reopenAndCheck(r *vrt.Run, dir, ackPath string, lines int, exact bool) reop
 			add("limbo-size", "limbo has %d entries after reopen, %d at Close", len(s.LimboIndex), len(v.limbo))
 		}
 	} else {
-		for hash := range v.acked {
-			if !present[hash] {
-				res.AckedGone++
-				if os.Getenv("C42_STRICT_ACK") == "1" {
-					add("acked-missing", "acknowledged tx %x is not pooled after the abrupt stop", hash[:4])
+		// Abrupt stop. An acknowledged transaction may be missing for reasons the code documents
+		// (billy persists deletions only at Close, so Init can resurrect replaced / evicted /
+		// included entries): it is counted, and reported only if nothing explains its absence:
+		//  - the log ends inside an operation (in-flight operations may go either way);
+		//  - a competitor with the same account and nonce is pooled instead (resurrected);
+		//  - a lower nonce of the account is missing or replaced as well (successors cannot stay);
+		//  - some resurrected (acknowledged earlier, since removed) tx of the account is pooled
+		//    (it changes the account's expenditure: overdraft cut from the tail);
+		//  - resurrected entries can push the store over the Datacap (eviction at Init).
+		acctOf := func(a common.Address) int {
+			for i, x := range e.addrs {
+				if x == a {
+					return i
 				}
+			}
+			return -1
+		}
+		pooledAt := map[[2]uint64]common.Hash{}
+		resurrectedIn := map[int]bool{}
+		for a, l := range s.Index {
+			for _, m := range l {
+				pooledAt[[2]uint64{uint64(acctOf(a)), m.Nonce}] = m.Hash
+				if !v.acked[m.Hash] {
+					resurrectedIn[acctOf(a)] = true
+				}
+			}
+		}
+		var ackedSize, minGone uint64
+		for hash := range v.acked {
+			ackedSize += v.info[hash].slot
+		}
+		for hash := range v.ever {
+			if !v.acked[hash] {
+				if sl := v.info[hash].slot; sl > 0 && (minGone == 0 || sl < minGone) {
+					minGone = sl
+				}
+			}
+		}
+		overCap := minGone > 0 && ackedSize+minGone > datacap
+		missingAt := map[int]uint64{} // lowest missing nonce per account
+		for hash := range v.acked {
+			if ai := v.info[hash]; !present[hash] {
+				if n, ok := missingAt[ai.acct]; !ok || ai.nonce < n {
+					missingAt[ai.acct] = ai.nonce
+				}
+			}
+		}
+		for hash := range v.acked {
+			if present[hash] {
+				continue
+			}
+			res.AckedGone++
+			ai := v.info[hash]
+			_, competitor := pooledAt[[2]uint64{uint64(ai.acct), ai.nonce}]
+			explained := v.inflight || competitor || missingAt[ai.acct] < ai.nonce || resurrectedIn[ai.acct] || overCap
+			if !explained || os.Getenv("C42_STRICT_ACK") == "1" {
+				add("acked-missing-unexplained", "acknowledged tx %x (account %d nonce %d) is not pooled after the abrupt stop and no resurrected competitor, missing predecessor, resurrected sibling or Datacap pressure explains it", hash[:4], ai.acct, ai.nonce)
 			}
 		}
 	}
